@@ -37,6 +37,8 @@ def argsFor (form : String) (n npos : Nat) (data : List α) (parsed : List α) :
     | "source" => [.source parsed]
     | "size" | "capacity" => [.size n]
     | "collator+goarray" => [.collator, .goarray data]
+    | "collator+sequence" => [.collator, .sequence data]
+    | "collator+source" => [.collator, .source parsed]
     | _ => []
   match npos with
   | 1 => .notation :: core
@@ -71,7 +73,7 @@ def facadeLine (j : Json) : String :=
     let data := (arr j "data").toList.map parseVal
     let hasParsed := has j "parsed"
     let pv := parseVal (fld j "parsed")
-    let parsed := itemsOf pv
+    let parsed := if has j "srcitems" then (arr j "srcitems").toList.map parseVal else itemsOf pv
     let dflt := nat j "dflt"
     let n := nat j "n"; let npos := nat j "npos"
     let capOf (b : Built Val) : Int := match b.cap with | some c => c | none => -1
@@ -82,7 +84,7 @@ def facadeLine (j : Json) : String :=
       match ctor with
       | "Array" => wrap (@buildArray Val ⟨parseVal (fld j "zero")⟩ (collect args))
       | "List" => wrap (buildList (collect args))
-      | "Set" => wrap (buildSet rankV (collect args))
+      | "Set" => wrap (buildSet (if bool j "rev" then (fun a b => rankV b a) else rankV) (collect args))
       | "Stack" => wrap (buildStack dflt (collect args))
       | "Queue" => wrap (buildQueue dflt (collect args))
       | "Catalog" | "Map" =>
